@@ -382,8 +382,8 @@ def check_c19(tier, seed, t0):
     for feats, profile in configs:
         t1 = time.time()
         legs = [props.hx_leg("SA", profile=profile, features=feats, L=3, D=7, props=["C01", "C02", "C04", "C06", "C07", "C08", "C09", "C12", "C14"] + (["C03"] if profile == "rel" else [])),
-                props.hx_leg("SE", profile=profile, features=feats, props=["C08", "C10", "C01", "C04", "C12"]),
-                props.hx_leg("SF", profile=profile, features=feats, props=["C10", "C01", "C04", "C12"])]
+                props.hx_leg("SE", profile=profile, features=feats, props=["C08", "C10", "C01", "C04", "C12"] + (["C17"] if "events" in feats else [])),
+                props.hx_leg("SF", profile=profile, features=feats, props=["C10", "C01", "C04", "C12"] + (["C17"] if "events" in feats else []))]
         if "events" in feats:
             legs.append(props.hx_leg("SG", profile=profile, features=feats, props=["C17", "C01"]))
         if "32_components" in feats:
